@@ -37,6 +37,7 @@ MH_PARAMS = [
 
 def units(tier, seed):
     us = [{"kind": "mh", "mh": mh} for mh in MH_PARAMS]
+    us += [{"kind": "mh", "mh": mh, "extended": True} for mh in MH_PARAMS if mh[0] in ("VarRange", "IntList", "FloatList")]
     fam = [s for s in G.general_family(tier)]
     us += P.standard_units(tier, fam, with_pt=False)
     return us
@@ -64,6 +65,18 @@ def run_mh(unit) -> UnitResult:
     seen = set()
 
     def run(src):
+        if unit.get("extended") and mh_spec[0] in ("VarRange", "IntList", "FloatList"):
+            # the option list the refinement was built from grows afterwards (names that only become known later are
+            # appended to the same list object): generator and validator still agree with each other
+            from geneticengine.grammar.metahandlers.floats import FloatList
+            from geneticengine.grammar.metahandlers.ints import IntList
+            from geneticengine.grammar.metahandlers.vars import VarRange
+
+            opts = list(mh_spec[1])
+            mh = {"VarRange": VarRange, "IntList": IntList, "FloatList": FloatList}[mh_spec[0]](opts)
+            opts.append({"VarRange": "zz", "IntList": 77, "FloatList": 7.5}[mh_spec[0]])
+            v = mh.generate(src, None, base, lambda t, **kw: 7, {})
+            return mh, v
         mh = G.make_mh(mh_spec)
         v = mh.generate(src, None, base, lambda t, **kw: 7, {})
         return mh, v
@@ -86,7 +99,7 @@ def run_mh(unit) -> UnitResult:
                 r.nontrivial += 1
             if len(r.samples) < 1:
                 r.samples.append({"metahandler": mh_spec, "value": repr(v)})
-        why = R.mh_predicate(mh_spec, v)
+        why = R.mh_predicate(mh_spec, v) if not unit.get("extended") else None
         if why is not None:
             r.add_violation(Violation(PROP, f"{mh_spec[0]}.generate", "predicate", {"mh": mh_spec[0]},
                                       dict(w, value=repr(v)), f"{mh_spec}: generated {v!r}: {why}"))
